@@ -105,6 +105,18 @@ class HistProp:
         mism, pfails, nlines, nchecked = kv.run_cases(cases, 'run-' + pid)
         byname = dict(cases)
         mine = [f for f in pfails if f['prop'] == pid or f['prop'] in self.also]
+        # The histories are sequential and deterministic: a genuine failure shows again when its case is run alone.
+        # One that does not (a watchdog that fired on an overloaded machine) is not reported; it is counted in the evidence.
+        unconfirmed = 0
+        suspects = sorted({f['case'] for f in mine} | {m['case'] for m in mism})
+        if suspects:
+            mism2, pf2, _, _ = kv.run_cases([(n, byname[n]) for n in suspects if n in byname], 'confirm-' + pid)
+            again_p = {(f['case'], f['prop'], f['clause']) for f in pf2}
+            again_m = {m['case'] for m in mism2}
+            keep_p = [f for f in mine if (f['case'], f['prop'], f['clause']) in again_p]
+            keep_m = [m for m in mism if m['case'] in again_m]
+            unconfirmed = (len(mine) - len(keep_p)) + (len(mism) - len(keep_m))
+            mine, mism = keep_p, keep_m
         known_hits, unknown = [], []
         for f in mine:
             e = kv.match_known(known, pid, f['clause'], byname.get(f['case']))
@@ -124,6 +136,12 @@ class HistProp:
         extra_cov = {}
         if self.extra and not args.replay:
             xv, extra_cov = self.extra(pid, tier, seed)
+            if xv and needs_confirmation(xv[0][1]):
+                # harnesses that decide by waiting (a watchdog, "still blocked after 30 ms"): the failure must show again
+                xv2, _ = self.extra(pid, tier, seed)
+                if not xv2:
+                    unconfirmed += len(xv)
+                    xv = []
             for kind, content in xv[:1]:
                 path = kv.write_replay(pid, kind, content)
                 verdict_lines.append('VIOLATION property=%s replay=%s%s' % (
@@ -190,6 +208,7 @@ class HistProp:
             correspondence_result_lines_compared=nlines, correspondence_mismatches=len(mism),
             property_checker_evaluations_on_impl_output=nchecked,
             property_checker_failures=len(mine), known_finding_hits=len(known_hits),
+            failures_not_reproduced_when_run_again=unconfirmed,
             input_distribution=stats, corpus_cases=len(load_corpus(pid)))
         cov.update(extra_cov)
         kv.write_evidence(pid, tier, seed, cov, self.assumptions, time.time() - t0, violations)
@@ -366,6 +385,7 @@ def cfg_c11(rng):
     p = prof_base(rng, versions=rng.choice([[2], [1, 2]]), time_mode='mono', p_rmindex=0.7, p_ro=0.3)
     p['weights'] = w(reopen=30)
     p['after_close'] = ['checkall', 'files']
+    p['p_idxcut'] = 0.12
     return p
 
 
@@ -483,6 +503,15 @@ def any_reopen_delete(ops):
 REG = {}
 
 
+def needs_confirmation(content):
+    """a failure of a harness that decides by the clock (a watchdog that fired; the C18 harnesses, which call a waiter
+    blocked when it has not returned within some milliseconds) is run again before it is reported; everything else - a
+    call that failed, a history that is not linearizable, a race report - is a fact of the run that produced it"""
+    if 'DATA RACE' in content:
+        return False
+    return 'Hang' in content or '# C18 violated' in content
+
+
 def reg(p):
     REG[p.pid] = p
 
@@ -500,8 +529,10 @@ def c02_extra(pid, tier, seed):
         r = subprocess.run([kv.KVRUN, 'conc', p], stdout=subprocess.PIPE, stderr=subprocess.PIPE, text=True, env=env, timeout=900)
         res = [l for l in r.stdout.split('\n') if l.startswith('= ')]
         viol = []
-        if r.returncode != 0 or not res or not res[0].startswith('= ok'):
-            viol.append(('P', '# C02 violated: a batch refused (or accepted) at the 64 MiB body limit left offsets assigned twice\n'
+        mine = 'ContentLost' if pid == 'C01' else 'OffsetReused'
+        if r.returncode != 0 or not res or not (res[0].startswith('= ok') or (res[0].startswith('= err') and mine not in res[0] and 'open' not in res[0].split()[:3])):
+            viol.append(('P', '# %s violated: ' % pid + ('a message at the 64 MiB body limit is not read back as published\n' if pid == 'C01' else
+                              'a batch refused (or accepted) at the 64 MiB body limit left offsets assigned twice\n') +
                               '# workload (kvrun conc: cedge): on an empty log Publish [a, b, BIG] with key+value of BIG = 64 MiB - d, then Publish [c], '
                               'scan, reopen, scan; formats V2 and V1\n# %s\n' % (res[0] if res else r.stderr[-800:])))
         return viol, dict(size_limit_batches=dict(cases=12, rule='d in {0, 1, 28, 35, 36, -1} x {V2, V1}'))
@@ -510,13 +541,20 @@ def c02_extra(pid, tier, seed):
 
 
 
-reg(HistProp('C01', cfg_c01, probes_scan, quick=500, thorough=20000,
+reg(HistProp('C01', cfg_c01, probes_scan, quick=500, thorough=20000, extra=c02_extra,
              rule='seeded histories (12-28 ops: publish batches 0-5, delete by class, trims, compaction, GC, close/reopen '
                   'with redrawn Rollover/Check/Recover/version options, index files removed, Migrate); after every op the '
                   'full feed-back scan; non-trivial = rollover <= 400 with >= 4 messages, >= 1 delete/trim and >= 1 reopen; '
                   'distinct by SHA1 of the op list',
              nontrivial=has_multi_layout))
-reg(HistProp('C02', cfg_c02, probes_c02, quick=500, thorough=20000, extra=c02_extra,
+def c02_both(pid, tier, seed):
+    v1, c1 = c02_extra(pid, tier, seed)
+    v2, c2 = crash.crash_lite(pid, tier, seed)
+    c1.update(c2)
+    return v1 + v2, c1
+
+
+reg(HistProp('C02', cfg_c02, probes_c02, quick=500, thorough=20000, extra=c02_both,
              rule='C01-style histories biased (40%) to delete-last/delete-all/tail then reopen then publish; Publish return '
                   'values and the offsets written back into the caller slice (harness passes offset -77 in), NextOffset, Sync; '
                   'non-trivial as C01', nontrivial=has_multi_layout))
@@ -538,14 +576,14 @@ reg(HistProp('C10', cfg_c10, probes_c10, quick=400, thorough=12000,
              extra_cases=lambda tier: neg_cases(tier)))
 reg(HistProp('C12', cfg_c12, probes_c12, quick=500, thorough=15000,
              rule='offset sets drawn by class (first/last/single/subset/range/all/tail/head/dead/unassigned/mixed), Delete and '
-                  'DeleteMulti, scan after each; non-trivial as C01', nontrivial=has_multi_layout))
+                  'DeleteMulti, scan after each; non-trivial as C01', nontrivial=has_multi_layout, extra=crash.crash_lite))
 reg(HistProp('C13', cfg_c01, probes_c13, quick=300, thorough=8000,
              rule='log-level half of C13: after every op Stat vs live count, Stat size vs sum of file sizes on disk, Size(m); '
                   'the codec half is the byte-level run (see coverage.codec)', nontrivial=has_multi_layout,
              extra=codec.c13_extra))
 reg(HistProp('C15', cfg_c15, probes_c15, quick=400, thorough=12000,
              rule='Find*/Trim*Multi (and single-segment Trim*) with bounds below/inside/above the live range; scan after each; '
-                  'non-trivial as C01', nontrivial=has_multi_layout))
+                  'non-trivial as C01', nontrivial=has_multi_layout, extra=crash.crash_lite))
 reg(HistProp('C16', cfg_c16, probes_c16, quick=400, thorough=12000,
              rule='small key set with repeats, 35% tombstones, nil key; FindUpdates/FindDeletes and Compact*(Multi) at cut-offs '
                   'around the current time; latest-value map checked before/after; non-trivial = at least 2 compactions',
